@@ -3,6 +3,7 @@ import Clikit.Drv.C09
 import Clikit.Model.History
 import Clikit.Model.AppState
 import Clikit.Model.IndentShared
+import Clikit.Model.RunIO
 /-! Driver entries for C17: `c17.help_protocol`, `c17.styles`, `c17.styles_wf`, `c17.app_hist`: a history of
 runs of the stateful composed application model (`AppState.runAppS`) on ONE application object, and
 `c17.render_hist`: a history of renderings and indentation scopes on ONE I/O whose two outputs are two objects or
@@ -43,15 +44,98 @@ def parserOfJ (j : Json) : R (List Str × Nat) := do
   | [p, k] => return ((← (← asArr p).toList.mapM asChars), (← asNat k))
   | _ => .error "parsers: [path, number] expected"
 
-open Clikit.AppState in
+/-! ### the I/O of a run (`Model/RunIO.lean`) -/
+section RunIOJ
+open Clikit.RunIO
+
+def stylesOf (j : Json) : R Styles := do
+  (← asArr j).toList.mapM fun p => do
+    match (← asArr p).toList with
+    | [t, l] => return ((← asChars t), (← asChars l))
+    | _ => .error "style: [tag, look] expected"
+
+def chanOf (j : Json) (k : String) : R Chan := do
+  match ← fStr j k with
+  | "out" => return .out
+  | "err" => return .err
+  | x => .error s!"channel out / err expected, got {x}"
+
+def optChanOf (j : Json) (k : String) : R (Option Chan) :=
+  match fOpt j k with
+  | none | some .null => .ok none
+  | some _ => do return some (← chanOf j k)
+
+/-- a formatter a handler constructs: `AnsiFormatter(ss, forced)` / `PlainFormatter(ss)` -/
+def newFmtOf (pastel : Styles) (j : Json) : R Formatter := do
+  return mkFormatter pastel (← stylesOf (← (fOpt j "ss").elim (.error "field ss expected") .ok)) (← fBool j "ansi") (← fBool j "forced")
+
+def hopOf (pastel : Styles) (j : Json) : R HOp := do
+  match ← fStr j "op" with
+  | "add_style" => return .addStyle (← chanOf j "on") (← asChars (.str (← fStr j "tag"))) (← asChars (.str (← fStr j "look")))
+  | "set_formatter" =>
+    let a ← (fOpt j "if_plain").elim (.error "field if_plain expected") .ok
+    let b ← (fOpt j "if_ansi").elim (.error "field if_ansi expected") .ok
+    return .setFormatter (← newFmtOf pastel a) (← newFmtOf pastel b)
+  | "set_verbosity" => return .setVerbosity (← fNat j "n")
+  | "set_quiet" => return .setQuiet (← optChanOf j "on") (← fBool j "b")
+  | "set_interactive" => return .setInteractive (← fBool j "b")
+  | "indent" => return .indent (← optChanOf j "on") (← fBool j "inc") (← fNat j "n")
+  | "write" => return .write (← chanOf j "on") (← asChars (.str (← fStr j "tag"))) (← fNat j "need")
+  | x => .error s!"unknown I/O operation {x}"
+
+def jStyles (l : Styles) : Json := jList (fun (p : Str × Look) => Json.arr #[jStr p.1, jStr p.2]) l
+
+def jChan : Chan → Json
+  | .out => .str "out"
+  | .err => .str "err"
+
+def jOutput (s : IOState) (o : Output) : Json :=
+  let f := s.fmts[o.fmt]?
+  Json.mkObj [("ansi", jOpt (fun (f : Formatter) => Json.bool f.ansi) f),
+              ("forced", jOpt (fun (f : Formatter) => Json.bool f.forced) f),
+              ("styles", jOpt (fun (f : Formatter) => jStyles f.styles) f),
+              ("format_output", .bool o.formatOutput), ("verbosity", jNat o.verbosity), ("quiet", .bool o.quiet),
+              ("indent", jNat o.indent)]
+
+def jIOState (s : IOState) : Json :=
+  Json.mkObj [("out", jOutput s s.out), ("err", jOutput s s.err), ("same_formatter", .bool (s.out.fmt == s.err.fmt)),
+              ("interactive", .bool s.interactive)]
+
+def jShown (x : Shown) : Json :=
+  let (how, look) : String × Json := match x.text with
+    | none => ("", .null)
+    | some (_, .literal) => ("literal", .null)
+    | some (_, .stripped l) => ("stripped", jStr l)
+    | some (_, .ansi l) => ("ansi", jStr l)
+  Json.mkObj [("on", jChan x.chan), ("tag", jStr x.tag), ("need", jNat x.need), ("written", .bool x.text.isSome),
+              ("indent", jOpt (fun (p : Nat × How) => jNat p.1) x.text), ("how", .str how), ("look", look)]
+
+/-- the handlers of the harness: the handler of `tweakPath` runs, for every value of its argument `what` (as the MODEL
+parsed it), the setter calls the table lists under that name, then every recording handler writes the probe lines -/
+def hioOf (tweakPath : List Str) (tweaks : List (Str × List HOp)) (probe : List HOp) : IOHandlers := fun path a =>
+  let whats : List Str := match dictGet? "what".toList a.args with
+    | some (.list l) => l.filterMap fun v => match v with | .str t => some t | _ => none
+    | some (.scalar (.str t)) => [t]
+    | _ => []
+  let pre := if path == tweakPath then whats.flatMap fun t => (dictGet? t tweaks).getD [] else []
+  execOps (pre ++ probe)
+
+end RunIOJ
+
+open Clikit.AppState Clikit.RunIO in
 /-- the runs of a history on one application object, each answered from the state the previous ones left:
-status, what happened, the command and args selected, the abstract handlers invoked with their args, and the
-leniency setting of every listed command AFTER the run -/
-def histRuns (env : Clikit.App.Env) (cv : Clikit.Parser.Conv) (app : List Clikit.Resolver.Cmd) (hs : Clikit.App.Handlers)
-    (paths : List (List Str)) : Clikit.AppState.AppState → List (List Str) → List Json
+status, what happened, the command and args selected, the abstract handlers invoked with their args, the
+leniency setting of every listed command AFTER the run; and the I/O of the run (`RunIO.runAppIO` = `runAppIOP` with
+`fp = .perRun`, the code as it is; `.cachedPerConfig` on request only: the seeded protocol): per handler call the
+I/O state it found and the probe lines as shown, and the configuration's style set after the run -/
+def histRuns (fp : FmtProto) (env : Clikit.App.Env) (e : IOEnv) (cv : Clikit.Parser.Conv) (app : List Clikit.Resolver.Cmd)
+    (hs : Clikit.App.Handlers) (hio : IOHandlers)
+    (paths : List (List Str)) : Clikit.AppState.AppState × World → List (List Str) → List Json
   | _, [] => []
-  | s, l :: rest =>
-    let r := runAppS env cv app hs s l
+  | sw, l :: rest =>
+    let s := sw.1
+    let rr := runAppIOP Proto.source fp env e cv app hs hio sw l
+    let r : Clikit.App.Result × Clikit.AppState.AppState := (rr.1.1, rr.2.1)
     Json.mkObj [
       ("status", jOpt jNat r.1.status),
       -- the I/O configuration `create_io` builds for THIS run (what every handler of the run finds on entry)
@@ -59,10 +143,13 @@ def histRuns (env : Clikit.App.Env) (cv : Clikit.Parser.Conv) (app : List Clikit
       ("what", C09.jWhat r.1.what),
       ("selected", jExcept C09.jSel (resolveCommandS cv s app l).1),
       ("invoked", jList C09.jSel r.1.invoked),
+      ("io_calls", jList (fun (c : IOState × List Shown) =>
+          Json.mkObj [("found", jIOState c.1), ("shown", jList jShown c.2)]) rr.1.2),
+      ("style_set", jStyles rr.2.2.styleSet),
       ("len", jList (fun (p : List Str) =>
           Json.arr #[jStrs p, jOpt (fun (b : Bool) => Json.bool b) (lenEntry r.2 p).current]) paths),
       ("restored", .bool (paths.all fun p => (lenEntry r.2 p).current == (lenEntry r.2 p).configured))]
-      :: histRuns env cv app hs paths r.2 rest
+      :: histRuns fp env e cv app hs hio paths rr.2 rest
 
 
 section RenderHist
@@ -125,7 +212,28 @@ def handle (m : String) (j : Json) : Option (R Json) :=
       let parsers ← (← fArr j "parsers").toList.mapM parserOfJ
       let hs : Clikit.App.Handlers := fun _ _ => .ret Clikit.App.ret0
       let env : Clikit.App.Env := { debug := false, render := fun _ => true }
-      return Json.arr (histRuns env cv app hs (raw.map (·.1)) (Clikit.AppState.initState raw parsers) lines).toArray
+      -- the I/O side: pastel's own styles, the configuration's style set, `supports_ansi()` of the two streams, the
+      -- table of what the `tweak` handler does per value of its argument, the probe lines of every recording handler
+      let ioj ← (fOpt j "io").elim (.error "field io expected") .ok
+      let pastel ← stylesOf (← (fOpt ioj "pastel").elim (.error "field pastel expected") .ok)
+      let ss ← stylesOf (← (fOpt ioj "style_set").elim (.error "field style_set expected") .ok)
+      let streams ← match (← fArr ioj "streams").toList with
+        | [.bool a, .bool b] => pure (a, b)
+        | _ => throw "streams: [bool, bool] expected"
+      let tweaks ← (← fArr ioj "tweaks").toList.mapM fun t => do
+        match (← asArr t).toList with
+        | [n, ops] => return ((← asChars n), (← (← asArr ops).toList.mapM (hopOf pastel)))
+        | _ => .error "tweaks: [name, ops] expected"
+      let probe ← (← fArr ioj "probe").toList.mapM (hopOf pastel)
+      let tweakPath ← (← fArr ioj "tweak_path").toList.mapM asChars
+      let e : Clikit.RunIO.IOEnv := { pastel := pastel, streams := streams }
+      -- `fmt_proto` absent: the code as it is; "cached": the protocol of the seeded change C17-8 (mutation trials only)
+      let fp : Clikit.RunIO.FmtProto ← match fOpt ioj "fmt_proto" with
+        | none | some (.str "per_run") => pure .perRun
+        | some (.str "cached") => pure .cachedPerConfig
+        | some _ => throw "fmt_proto: per_run / cached expected"
+      return Json.arr (histRuns fp env e cv app hs (hioOf tweakPath tweaks probe) (raw.map (·.1))
+        (Clikit.AppState.initState raw parsers, Clikit.RunIO.World.fresh ss) lines).toArray
   | "c17.help_protocol" => some do
       let cur ← optBoolOf j "cur"
       let ok ← fBool j "inner_ok"
